@@ -1,6 +1,7 @@
 // Universe: unit decoders, character-class predicates, endian readers and unescape helpers (C10, C17).
 // Every function here is a leaf over a few input units; sa/bits.py evaluates the instantiated bodies over exact sets of units.
 #include "vu.hpp"
+#include "tao/pegtl/vu_static_control.hpp"   // positive control of the C05 X-state scan
 
 #include <utility>
 
@@ -52,7 +53,7 @@ namespace vu::bits
 
    inline std::size_t all_bits( In& in, const char c, std::string& s )
    {
-      std::size_t n = all_ichar( c, std::make_index_sequence< 256 >() );
+      std::size_t n = all_ichar( c, std::make_index_sequence< 256 >() ) + vu::static_state_control();
       n += classes< alnum, alpha, blank, digit, identifier_first, identifier_other, lower, nul, odigit, print, seven, space, upper, xdigit,
                     one< 'a', 'Z', '\n' >, not_one< 'a', 'Z', '\n' >, range< 'a', 'f' >, not_range< 'a', 'f' >, ranges< 'a', 'f', '0', '9', '_' >, ranges< 'a', 'f' >,
                     one< '\x80', '\xff', 'b' >, range< '\x80', '\xfe' >, not_range< '\xf0', '\x7f' >,
